@@ -129,6 +129,9 @@ impl Prop for C07 {
              "a 4-vertex axis-parallel polygon returns as the rectangle spanned by its first and third vertices (GDSII has no rectangle); everything else returns vertex for vertex".into(),
              "layout-only cells, no annotations (GDSII export does not carry them and the statement does not list them)".into()]
     }
+    fn miri_gen(&self) -> Option<&'static str> {
+        Some("roundtrip")
+    }
     fn plan(&self, tier: Tier) -> Vec<GenSpec> {
         vec![
             GenSpec::random("roundtrip", tier.pick(60_000, 600_000)),
